@@ -28,6 +28,10 @@ CHECKS = {
   text="RequestContext::request_body_max_bytes, StreamingBody::into_stream (the try_stream! coroutine, executed as a state machine across polls), http_dump_body's coroutine, StreamingBody::into_bytes_mut and UntypedBody::from_request executed from MIR on frame scripts of 0..4 (quick) / 0..6 (thorough) frames, each a data frame of symbolic 64-bit length, a trailers frame or a transport error, with symbolic server default and per-endpoint override. z3 proves per path: effective limit = override else default; the emitted sequence is exactly the data frames in order until the running total would exceed the limit, then (after draining the rest) one 4xx error and nothing more; delivered bytes <= limit; a body within the limit is delivered intact; the buffered extractor succeeds iff the stream has no error. Wire-level witnesses (untyped, streaming, typed extractors; default/override; several chunkings) replayed against a loop-back server.",
   note="Assumes the frame lengths of one body sum to < 2^63. Trusted: models of the http_body_util Frame future, async-stream yielder and futures try_fold (props/asyncmodel.py). Outside: HTTP framing / chunk decoding (hyper); byte contents (chunks tracked by identity); TypedBody's use of the same path is exercised on the wire only.",
   tech="symbolic execution of MIR coroutines across polls + SMT (64-bit bit-vectors); reference stream evaluated under path conditions; native replay", ref="DESIGN.md §5 C11"),
+ "C13": dict(
+  text="HttpError's six public constructors, add_header/with_header (0..2 attached headers) and into_response executed from MIR with the status as a symbolic 16-bit value over the whole admissible range, and messages / error code / request id / header values as distinct opaque strings: z3 proves per path that no constructor panics, the response status equals the error's status, the JSON body carries request id, external message (the canonical reason where the constructor says so, from the http crate's table) and error code (omitted iff None), the headers are exactly the attached ones plus content-type: application/json and x-request-id = the request id, and (non-interference) the internal-message symbol occurs nowhere in the response. HandlerError::{status_code,into_response} stamp a handler-built response with exactly one x-request-id. ErrorStatusCode / ClientErrorStatusCode from_u16, from_status, as_client_error are decided over all u16 twice: by MIRSYM (models of http::StatusCode) and by Kani/CBMC on the compiled code of dropshot and the real http crate.",
+  note="Trusted: http::StatusCode range predicates and canonical_reason table (read from the registry source), HeaderMap/Builder models, serde_json rendering kept uninterpreted. Assumes the request id is a legal header value (server-generated UUID). Outside: request-id uniqueness and the stamping in server.rs::http_request_handle over request sequences.",
+  tech="symbolic execution of MIR + SMT (bit-vector status, opaque strings, term-occurrence non-interference); Kani/CBMC for the status refinement types; native replay", ref="DESIGN.md §5 C13"),
 }
 NA_DEFAULT = "check under construction in this round (see DESIGN.md §5/§7); not yet claimed"
 NA = {}
